@@ -11,8 +11,12 @@ INT_TYPES = (3, 4, 5, 6, 7, 13, 15, 16, 17, 18)
 PART = int(os.environ.get("VERIF_PART", "-1"))
 
 
+# field numbers deliberately run AGAINST declaration order: "first repeated field" means first declared, not lowest number
+NUMBERS = {"page_token": 3, "page_size": 1, "max_results": 2, "items1": 9, "next_page_token": 8, "items2": 5, "items3": 2}
+
+
 def mk_field(name, typ, label, msg=None):
-    pb = NS(name=name, type=typ, label=label, type_name=(".x.Y" if msg is not None else ""), number=1)
+    pb = NS(name=name, type=typ, label=label, type_name=(".x.Y" if msg is not None else ""), number=NUMBERS.get(name, 1))
     return wrappers.Field(field_pb=pb, message=msg)
 
 
